@@ -164,9 +164,10 @@ def process_urlencoded(entity):
                         params[key].append(value)
                     else:
                         params[key] = value
-        except (LookupError, UnicodeError):
+        except (LookupError, ValueError):
             # undecodable, or a charset this Python does not provide
-            # (or one that is not a text encoding at all)
+            # (or one that is not a text encoding at all, or a name
+            # with a NUL in it: plain ValueError)
             pass
         else:
             entity.charset = charset
@@ -556,7 +557,7 @@ class Entity(object):
         for charset in self.attempt_charsets:
             try:
                 value = value.decode(charset)
-            except (LookupError, UnicodeError):
+            except (LookupError, ValueError):
                 pass
             else:
                 self.charset = charset
